@@ -7,6 +7,18 @@ class StathamError(Exception):
     """Base exception for errors relating to :mod:`statham`."""
 
 
+def _display(value, render=repr) -> str:
+    """Render a value for an error message.
+
+    Integers beyond the interpreter's int-to-str limit cannot be rendered;
+    reporting the failure must not raise an unrelated `ValueError`.
+    """
+    try:
+        return render(value)
+    except ValueError:
+        return f"<{type(value).__name__} too large to display>"
+
+
 class SchemaDefinitionError(StathamError):
     """Raised when invalid schemas are declared in model definitions."""
 
@@ -26,9 +38,9 @@ class ValidationError(StathamError):
     @classmethod
     def from_validator(cls, property_, value, message) -> "ValidationError":
         value_string = (
-            f"{repr(property_.parent)}.{property_.name} = {repr(value)}`"
+            f"{repr(property_.parent)}.{property_.name} = {_display(value)}`"
             if property_.name != "<unbound>"
-            else repr(value)
+            else _display(value)
         )
         return cls(f"Failed validating `{value_string}`. {message}")
 
@@ -47,7 +59,7 @@ class ValidationError(StathamError):
     def multiple_composition_match(cls, matching_models, data):
         return cls(
             "Matches multiple possible models. Must only match one.\n"
-            f"Data: {data}\n"
+            f"Data: {_display(data, str)}\n"
             f"Models: {matching_models}"
         )
 
